@@ -95,3 +95,18 @@ Proof.
   unfold redact_line. rewrite Eo. rewrite Hfix, Hpr. now rewrite Ho.
 Qed.
 Print Assumptions C19_line_fixed_point.
+
+(* ---------- where the fixed point ends: the stream level (finding F34) ---------- *)
+From Coq Require Import NArith.
+From Model Require Import Stream.
+From Proofs Require Import StreamProofs.
+
+(* every single line is a fixed point (C19_line_fixed_point); a log is not always one. Redaction can lengthen a line - every short string grows to
+   the replacement text - and when an emitted line o reaches the reader's limit, a second pass over the output stops at it with the explicit error:
+   after the block A of lines before it nothing more is delivered. The full statement "redact (redact x) = redact x" for whole logs is therefore
+   false of the faithful model exactly for such lines; the implementation shows the same (36,184 bytes in, 99,184 bytes out, second run: exit 1). *)
+Theorem C19_second_pass_stops_at_a_grown_line : forall A o B e,
+  block_ok A -> ~ In nl o -> (max_token <= len_N o)%N ->
+  snd (scan (A ++ o ++ nl :: B) e) = STooLong /\ fst (scan (A ++ o ++ nl :: B) e) = fst (scan A REof).
+Proof. exact toolong_after_block. Qed.
+Print Assumptions C19_second_pass_stops_at_a_grown_line.
